@@ -550,10 +550,10 @@ Proof.
     cbn [writable forallb] in W; apply andb_true_iff in W as [Wk Wm]; auto.
 Qed.
 
-Theorem sem_prog : forall f mem o, writable mem = true ->
+Theorem sem_prog : forall f mem o, writable mem = true -> plain_op o = true ->
   sem Allow (prog (S f) mem o) = Some (spec_out mem o, Allow).
 Proof.
-  intros f mem o W. destruct o; cbn [prog spec_out sem sem_cmd].
+  intros f mem o W P. destruct o; try discriminate; cbn [prog spec_out sem sem_cmd].
   - reflexivity.
   - now rewrite (sem_members_allow _ _ _ W).
   - rewrite sem_app, (sem_member_noinc _ None _ _ I). cbn [sem sem_cmd sink_out app]. reflexivity.
@@ -567,6 +567,7 @@ Proof.
   - reflexivity.
   - pose proof (writable_kind_of mem i W) as K. destruct (kind_of mem i); try discriminate;
       cbn [sem sem_cmd]; rewrite ?Nat.eqb_refl; reflexivity.
+  - reflexivity.
 Qed.
 
 Lemma init_thread_at : forall sc i o,
@@ -580,51 +581,51 @@ Qed.
    specification says it obtains alone; what it writes to stand-off files is member content. *)
 Theorem scenario_independent : forall sc sched i o,
   writable (members sc) = true ->
-  nth_error (ops sc) i = Some o ->
+  nth_error (ops sc) i = Some o -> plain_op o = true ->
   exists t', nth_error (thr (run false sched (init sc))) i = Some t' /\ dead t' = false /\ files_ok t'
              /\ (finished t' = true -> out t' = spec_out (members sc) o)
              /\ exists rest, out t' ++ rest = spec_out (members sc) o.
 Proof.
-  intros sc sched i o W Ho.
+  intros sc sched i o W Ho P.
   eapply independent_generic with (m1 := Allow).
   - apply init_thread_at; eauto.
   - reflexivity.
   - reflexivity.
   - reflexivity.
-  - cbn [init_thread stk tmd]. apply sem_prog; exact W.
+  - cbn [init_thread stk tmd]. apply sem_prog; assumption.
 Qed.
 
 (* Alone, every entry point yields the specified result, whatever the changed flags are. *)
 Theorem scenario_solo : forall sh sc n i o,
   writable (members sc) = true ->
-  nth_error (ops sc) i = Some o ->
+  nth_error (ops sc) i = Some o -> plain_op o = true ->
   exists t', nth_error (thr (run sh (repeat i n) (init sc))) i = Some t' /\ dead t' = false
              /\ (finished t' = true -> out t' = spec_out (members sc) o).
 Proof.
-  intros sh sc n i o W Ho.
+  intros sh sc n i o W Ho P.
   destruct (solo_generic sh i n (init sc) (init_thread (prog model_fuel (members sc) o))
               (spec_out (members sc) o) Allow) as (t' & H1 & H2 & _ & H3 & _); eauto.
   - apply init_thread_at; eauto.
-  - destruct sh; cbn [init md init_thread stk tmd cur_mode]; apply sem_prog; exact W.
+  - destruct sh; cbn [init md init_thread stk tmd cur_mode]; apply sem_prog; assumption.
 Qed.
 
 (* the shared-cell design, outside the race class *)
 Theorem shared_scenario_guarded : forall sc sched i o,
   writable (members sc) = true ->
-  nth_error (ops sc) i = Some o ->
+  nth_error (ops sc) i = Some o -> plain_op o = true ->
   Shared_mode_race (changed0 sc) (thr (init sc)) i = false ->
   exists t', nth_error (thr (run true sched (init sc))) i = Some t' /\ dead t' = false /\ files_ok t'
              /\ (finished t' = true -> out t' = spec_out (members sc) o)
              /\ exists rest, out t' ++ rest = spec_out (members sc) o.
 Proof.
-  intros sc sched i o W Ho Hk.
+  intros sc sched i o W Ho P Hk.
   eapply shared_guarded with (c0 := changed0 sc) (m1 := Allow); eauto.
   - apply le_flags_refl.
   - apply init_thread_at; eauto.
   - reflexivity.
   - reflexivity.
   - reflexivity.
-  - cbn [init md init_thread stk]. apply sem_prog; exact W.
+  - cbn [init md init_thread stk]. apply sem_prog; assumption.
 Qed.
 
 (* ---------- the harness granularity is a special case ---------- *)
@@ -654,13 +655,13 @@ Qed.
 
 Corollary scenario_independent_coarse : forall sc cs i o t',
   writable (members sc) = true ->
-  nth_error (ops sc) i = Some o ->
+  nth_error (ops sc) i = Some o -> plain_op o = true ->
   nth_error (thr (run_coarse false cs (init sc))) i = Some t' ->
   files_ok t' /\ dead t' = false /\ (finished t' = true -> out t' = spec_out (members sc) o).
 Proof.
-  intros sc cs i o t' W Ho Hn.
+  intros sc cs i o t' W Ho P Hn.
   destruct (run_coarse_is_run false cs (init sc)) as [fs E]. rewrite E in Hn.
-  destruct (scenario_independent sc fs i o W Ho) as (t2 & H1 & H2 & H3 & H4 & _).
+  destruct (scenario_independent sc fs i o W Ho P) as (t2 & H1 & H2 & H3 & H4 & _).
   rewrite Hn in H1. injection H1 as <-. auto.
 Qed.
 
